@@ -262,8 +262,22 @@ fn case() -> BoxedStrategy<Case> {
     ];
     // replies far larger than a socket buffer: in one case out of eight
     let large = proptest::option::weighted(0.125, (select(vec![300_000usize, 1_500_000, 4_000_000]), any::<u8>(), any::<u16>()));
-    (proptest::collection::vec(item(), 1..40), seg, select(vec![0u8, 0, 1, 3]), large)
-        .prop_map(|(mut items, seg, pause_ms, large)| {
+    // a pipeline far deeper than one read of the server can hold: short commands, hundreds to
+    // thousands of them, in one case out of ten
+    let deep = proptest::option::weighted(0.1, (select(vec![300usize, 1000, 5000]), select(vec![0u8, 1, 2, 3]), any::<u16>()));
+    (proptest::collection::vec(item(), 1..40), seg, select(vec![0u8, 0, 1, 3]), large, deep)
+        .prop_map(|(mut items, seg, pause_ms, large, deep)| {
+            if let Some((n, kind, pos)) = deep {
+                let one: Cmd = match kind {
+                    0 => vec![bs("PING")],
+                    1 => vec![bs("GET"), bs("T:str")],
+                    2 => vec![bs("INCR"), bs("deep:n")],
+                    _ => vec![bs("ECHO"), bs("x")],
+                };
+                let it = Item { cmds: vec![one; n], must_err: vec![], class: "deep-pipeline" };
+                let at = (pos as usize * (items.len() + 1)) >> 16;
+                items.insert(at, it);
+            }
             if let Some((n, b, pos)) = large {
                 let it = Item { cmds: vec![vec![bs("SET"), bs("kbig"), vec![b | 1; n]], vec![bs("GET"), bs("kbig")], vec![bs("GET"), bs("kbig")], vec![bs("DEL"), bs("kbig")]], must_err: vec![], class: "large-reply" };
                 let at = (pos as usize * (items.len() + 1)) >> 16;
